@@ -264,16 +264,20 @@ Qed.
 Lemma flat_map_length_const {A} (f : A -> bytes) k l : (forall x, length (f x) = k) -> length (flat_map f l) = (k * length l)%nat.
 Proof. intros H. induction l; simpl; [lia|]. rewrite app_length, H, IHl. lia. Qed.
 
-Lemma tagscan_NoDe r : tagscan (tag_NoDe ++ r) tag_NoDe = Ok true. Proof. reflexivity. Qed.
-Lemma tagscan_TaiL : tagscan tag_TaiL tag_TaiL = Ok true. Proof. reflexivity. Qed.
-Lemma tagscan_fCbt r : tagscan (tag_fCbt ++ r) tag_fCbt = Ok true. Proof. reflexivity. Qed.
-Lemma tagscan_Fcte : tagscan tag_Fcte tag_Fcte = Ok true. Proof. reflexivity. Qed.
+Lemma tagcheck_NoDe c r : tagcheck c (tag_NoDe ++ r) tag_NoDe = Ok true.
+Proof. unfold tagcheck. destruct (fx_tag c); reflexivity. Qed.
+Lemma tagcheck_TaiL c : tagcheck c tag_TaiL tag_TaiL = Ok true.
+Proof. unfold tagcheck. destruct (fx_tag c); reflexivity. Qed.
+Lemma tagcheck_fCbt c r : tagcheck c (tag_fCbt ++ r) tag_fCbt = Ok true.
+Proof. unfold tagcheck. destruct (fx_tag c); reflexivity. Qed.
+Lemma tagcheck_Fcte c : tagcheck c tag_Fcte tag_Fcte = Ok true.
+Proof. unfold tagcheck. destruct (fx_tag c); reflexivity. Qed.
 
 Definition str32 (s : bytes) : Prop := length s = 32%nat /\ cstrn s = s.
 
 Definition nh_ok (a : fattr) (h : node_header) : Prop :=
   str32 (nh_name h) /\ str32 (nh_label h) /\ str32 (nh_dtype h) /\
-  0 <= nh_nsub h < W32 /\ 0 <= nh_entries h < W32 /\ ptr_ok a (nh_snt h) /\
+  0 <= nh_nsub h < W32 /\ 0 <= nh_entries h < W32 /\ nh_nsub h <= nh_entries h /\ ptr_ok a (nh_snt h) /\
   0 <= nh_ndims h <= 12 /\ length (nh_dims h) = 12%nat /\
   Forall (fun d => 0 <= d < (if fa_old a then W32 else W64)) (nh_dims h) /\
   0 <= nh_nchunks h <= 65535 /\ ptr_ok a (nh_data h).
@@ -285,19 +289,20 @@ Proof.
   - rewrite (flat_map_length_const _ 8) by (intros; apply conv_int_enc_length). lia.
 Qed.
 
-Theorem node_header_roundtrip a h : nh_ok a h -> dec_node_header a (enc_node_header a h) = Ok h.
+Theorem node_header_roundtrip c a h : nh_ok a h -> dec_node_header c a (enc_node_header a h) = Ok h.
 Proof.
-  intros ((Ln & Cn) & (Ll & Cl) & (Lt & Ct) & Hs & He & Hp1 & Hnd & Ld & Fd & Hc & Hp2).
+  intros ((Ln & Cn) & (Ll & Cl) & (Lt & Ct) & Hs & He & Hse & Hp1 & Hnd & Ld & Fd & Hc & Hp2).
   unfold dec_node_header, enc_node_header.
   assert (LT0 : length tag_NoDe = 4%nat) by reflexivity. assert (LT1 : length tag_TaiL = 4%nat) by reflexivity.
   pose proof (hexenc_length 8 (nh_nsub h)) as L1. pose proof (hexenc_length 8 (nh_entries h)) as L2.
   pose proof (dp_enc_length a (nh_snt h)) as L3. pose proof (hexenc_length 2 (nh_ndims h)) as L4.
   pose proof (enc_dims_length a _ Ld) as L5. pose proof (hexenc_length 4 (nh_nchunks h)) as L6.
   pose proof (dp_enc_length a (nh_data h)) as L7.
-  rewrite tagscan_NoDe. cbn [bind negb].
+  rewrite tagcheck_NoDe. cbn [bind negb].
   repeat slice1.
-  change (skipn 0 tag_TaiL) with tag_TaiL. rewrite tagscan_TaiL. cbn [bind negb].
+  change (skipn 0 tag_TaiL) with tag_TaiL. rewrite tagcheck_TaiL. cbn [bind negb].
   rewrite hex8_rt by lia. cbn [bind]. rewrite hex8_rt by lia. cbn [bind].
+  destruct (Z.gtb_spec (nh_nsub h) (nh_entries h)) as [G|G]; [lia|]. rewrite Bool.andb_false_r.
   rewrite dp_roundtrip by assumption. cbn [bind].
   rewrite hex2_rt by lia. cbn [bind].
   assert (Hdims : (if fa_old a then hex_fields (enc_dims a (nh_dims h)) 8 12 (W32 - 1)
@@ -328,15 +333,15 @@ Proof.
   rewrite dp_roundtrip by assumption. cbn [bind]. rewrite skipn_app_hit by apply dp_enc_length. rewrite IH. reflexivity.
 Qed.
 
-Theorem fct_roundtrip a ps : length ps = 6%nat -> Forall (ptr_ok a) ps -> dec_fct a (enc_fct a ps) = Ok ps.
+Theorem fct_roundtrip c a ps : length ps = 6%nat -> Forall (ptr_ok a) ps -> dec_fct c a (enc_fct a ps) = Ok ps.
 Proof.
   intros L F. unfold dec_fct, enc_fct.
   assert (LT0 : length tag_fCbt = 4%nat) by reflexivity. assert (LT1 : length tag_Fcte = 4%nat) by reflexivity.
   assert (LP : length (flat_map (dp_enc a) ps) = 72%nat)
     by (rewrite (flat_map_length_const _ 12) by apply dp_enc_length; lia).
-  rewrite tagscan_fCbt. cbn [bind negb].
+  rewrite tagcheck_fCbt. cbn [bind negb].
   repeat slice1.
-  change (skipn 0 tag_Fcte) with tag_Fcte. rewrite tagscan_Fcte. cbn [bind negb].
+  change (skipn 0 tag_Fcte) with tag_Fcte. rewrite tagcheck_Fcte. cbn [bind negb].
   rewrite <- L. apply dp_fields_flat; assumption.
 Qed.
 
@@ -350,7 +355,7 @@ Definition fh_ok (a : fattr) (h : file_header) : Prop :=
   (length (fh_what h) = 32%nat /\ cstrn (fh_what h) = fh_what h) /\
   (length (fh_cdate h) = 28%nat /\ cstrn (fh_cdate h) = fh_cdate h) /\
   (length (fh_mdate h) = 28%nat /\ cstrn (fh_mdate h) = fh_mdate h) /\
-  fa_fmt a <> 0 /\ fa_os a <> 0 /\
+  fmt_letter (fa_fmt a) = true /\ os_letter (fa_os a) = true /\
   length (fh_sizes h) = 12%nat /\ Forall (fun v => 0 <= v < 256) (fh_sizes h) /\
   ptr_ok a (fh_root h) /\ ptr_ok a (fh_eof h) /\ ptr_ok a (fh_free h) /\ ptr_ok a (fh_extra h).
 
@@ -360,7 +365,16 @@ Ltac nth1 :=
       rewrite (app_nth2 a b d) by (rewrite H; lia); rewrite H; simpl (i - k)%nat
   end.
 
-Theorem file_header_roundtrip a h : fh_ok a h -> dec_file_header a (enc_file_header a h) = Ok h.
+Lemma fmt_letter_nz x : fmt_letter x = true -> (x =? 0) = false.
+Proof.
+  unfold fmt_letter. intros H. destruct (Z.eqb_spec x 0); [subst; discriminate|reflexivity].
+Qed.
+Lemma os_letter_nz x : os_letter x = true -> (x =? 0) = false.
+Proof.
+  unfold os_letter. intros H. destruct (Z.eqb_spec x 0); [subst; discriminate|reflexivity].
+Qed.
+
+Theorem file_header_roundtrip c a h : fh_ok a h -> dec_file_header c a (enc_file_header a h) = Ok h.
 Proof.
   intros ((Lw & Cw) & (Lc & Cc) & (Lm & Cm) & Hf & Ho & Ls & Fs & P1 & P2 & P3 & P4).
   unfold dec_file_header, enc_file_header, header_tags_ok.
@@ -374,7 +388,7 @@ Proof.
   pose proof (dp_enc_length a (fh_free h)) as L3. pose proof (dp_enc_length a (fh_extra h)) as L4.
   repeat slice1. repeat nth1. cbn [nth].
   rewrite !beq_refl. cbn [andb negb].
-  destruct (Z.eqb_spec (fa_fmt a) 0); [contradiction|]. destruct (Z.eqb_spec (fa_os a) 0); [contradiction|]. cbn [orb].
+  rewrite Hf, Ho, (fmt_letter_nz _ Hf), (os_letter_nz _ Ho). cbn [andb orb negb]. rewrite !Bool.andb_false_r.
   rewrite <- Ls at 1. rewrite hex_fields_flat
     by (first [lia | eapply Forall_impl; [|exact Fs]; cbn beta; intros v Hv; change (16 ^ Z.of_nat 2) with 256; lia]).
   cbn [bind]. rewrite !dp_roundtrip by assumption. cbn [bind].
@@ -413,7 +427,8 @@ Proof.
   unfold conv_int, conv_mode, fmt_ok. intros Hs H.
   destruct (Z.eqb_spec fmt 78); [discriminate|]. destruct (Z.eqb_spec fmt 76).
   - simpl in H. inversion H; subst. split; [auto|]. apply le_dec_range. assumption.
-  - destruct (Z.eqb_spec fmt 66); destruct (Z.eqb_spec fmt 67); simpl in H; try discriminate;
+  - destruct (fmt >=? 128); [discriminate|].
+    destruct (Z.eqb_spec fmt 66); destruct (Z.eqb_spec fmt 67); simpl in H; try discriminate;
       (inversion H; subst; split; [auto|]; rewrite <- (rev_length s); apply le_dec_range; apply bytes_ok_rev; assumption).
 Qed.
 
@@ -440,8 +455,9 @@ Qed.
 (* C13_decode_total_sound, node header: acceptance implies both boundary tags matched (case-insensitively, at
    position 0 -- what ADFI_stridx_c(..) == 0 means), every hex field is made of hex digits, and every value is
    inside its declared range *)
-Theorem node_header_sound a d h : dec_node_header a d = Ok h ->
-  tagscan d tag_NoDe = Ok true /\ tagscan (skipn 242 d) tag_TaiL = Ok true /\
+Theorem node_header_sound c a d h : dec_node_header c a d = Ok h ->
+  tagcheck c d tag_NoDe = Ok true /\ tagcheck c (skipn 242 d) tag_TaiL = Ok true /\
+  (fx_snt c = true -> nh_nsub h <= nh_entries h) /\
   0 <= nh_nsub h < W32 /\ 0 <= nh_entries h < W32 /\ 0 <= nh_ndims h <= 12 /\ 0 <= nh_nchunks h <= 65535 /\
   Forall is_hexchar (sub d 68 8) /\ Forall is_hexchar (sub d 76 8) /\ Forall is_hexchar (sub d 128 2) /\
   Forall is_hexchar (sub d 226 4) /\
@@ -451,44 +467,51 @@ Proof.
   apply bind_ok in H. destruct H as (s & Hs & H). destruct s; [|discriminate]. cbn [negb] in H.
   apply bind_ok in H. destruct H as (e & He & H). destruct e; [|discriminate]. cbn [negb] in H.
   apply bind_ok in H. destruct H as (nsub & H1 & H). apply bind_ok in H. destruct H as (ent & H2 & H).
+  destruct (fx_snt c && (nsub >? ent)) eqn:Esn; [discriminate|].
   apply bind_ok in H. destruct H as (snt & H3 & H). apply bind_ok in H. destruct H as (nd & H4 & H).
   apply bind_ok in H. destruct H as (dims & H5 & H). apply bind_ok in H. destruct H as (nch & H6 & H).
   apply bind_ok in H. destruct H as (dc & H7 & H). inversion H; subst; clear H. cbn.
   apply hex2uint_ok_range in H1, H2, H4, H6. unfold W32 in *.
   repeat split; try lia; try tauto.
+  intros Hc. rewrite Hc in Esn. cbn [andb] in Esn. destruct (Z.gtb_spec nsub ent); [discriminate|lia].
 Qed.
 
-Theorem node_header_total a d : (exists h, dec_node_header a d = Ok h) \/ (exists e, dec_node_header a d = Err e) \/
-  dec_node_header a d = OOBR 5.
+Theorem node_header_total c a d : fa_fmt a < 128 ->
+  (exists h, dec_node_header c a d = Ok h) \/ (exists e, dec_node_header c a d = Err e) \/
+  dec_node_header c a d = OOBR 5.
 Proof.
+  intros Hfmt.
   assert (T : forall t tag f, (exists b, tagscan_from t tag f = Ok b) \/ tagscan_from t tag f = OOBR 5).
   { induction t as [|x t IH]; intros tag f; simpl; [auto|]. destruct (x =? 0); [left; eauto|].
     destruct (pref (x :: t) tag) as [[|]|]; [left; eauto|apply IH|auto]. }
   assert (HX : forall mn mx s, (exists v, hex2uint mn mx s = Ok v) \/ (exists e, hex2uint mn mx s = Err e))
     by (intros; apply hex2uint_total).
-  assert (CI : forall fmt s, (exists v, conv_int fmt s = Ok v) \/ (exists e, conv_int fmt s = Err e)).
-  { intros fmt s. unfold conv_int, conv_mode. destruct (fmt =? 78); [right; simpl; eauto|].
-    destruct (fmt =? 76); [left; simpl; eauto|].
-    destruct ((fmt =? 66) || (fmt =? 67)); [left; simpl; eauto|right; simpl; eauto]. }
+  assert (CI : forall s, (exists v, conv_int (fa_fmt a) s = Ok v) \/ (exists e, conv_int (fa_fmt a) s = Err e)).
+  { intros s. unfold conv_int, conv_mode. destruct (fa_fmt a =? 78); [right; simpl; eauto|].
+    destruct (fa_fmt a =? 76); [left; simpl; eauto|]. destruct (Z.geb_spec (fa_fmt a) 128); [lia|].
+    destruct ((fa_fmt a =? 66) || (fa_fmt a =? 67)); [left; simpl; eauto|right; simpl; eauto]. }
   assert (DP : forall s, (exists p, dp_dec a s = Ok p) \/ (exists e, dp_dec a s = Err e)).
   { intros. unfold dp_dec, dp_from_hex. destruct (fa_old a).
     - destruct (HX 0 (W32 - 1) (sub s 0 8)) as [(v & ->)|(e & ->)]; simpl; [|right; eauto].
       destruct (HX 0 BLK (sub s 8 4)) as [(v2 & ->)|(e & ->)]; simpl; [left|right]; eauto.
-    - destruct (CI (fa_fmt a) (sub s 0 8)) as [(v & ->)|(e & ->)]; simpl; [|right; eauto].
-      destruct (CI (fa_fmt a) (sub s 8 4)) as [(v2 & ->)|(e & ->)]; simpl; [left|right]; eauto. }
+    - destruct (CI (sub s 0 8)) as [(v & ->)|(e & ->)]; simpl; [|right; eauto].
+      destruct (CI (sub s 8 4)) as [(v2 & ->)|(e & ->)]; simpl; [left|right]; eauto. }
   assert (HF : forall n s w mx, (exists v, hex_fields s w n mx = Ok v) \/ (exists e, hex_fields s w n mx = Err e)).
   { induction n; intros; simpl; [left; eauto|].
     destruct (HX 0 mx (firstn w s)) as [(v & ->)|(e & ->)]; simpl; [|right; eauto].
     destruct (IHn (skipn w s) w mx) as [(v2 & ->)|(e & ->)]; simpl; [left|right]; eauto. }
-  assert (IF : forall n fmt s w, (exists v, int_fields fmt s w n = Ok v) \/ (exists e, int_fields fmt s w n = Err e)).
+  assert (IF : forall n s w, (exists v, int_fields (fa_fmt a) s w n = Ok v) \/ (exists e, int_fields (fa_fmt a) s w n = Err e)).
   { induction n; intros; simpl; [left; eauto|].
-    destruct (CI fmt (firstn w s)) as [(v & ->)|(e & ->)]; simpl; [|right; eauto].
-    destruct (IHn fmt (skipn w s) w) as [(v2 & ->)|(e & ->)]; simpl; [left|right]; eauto. }
-  unfold dec_node_header, tagscan.
-  destruct (T d tag_NoDe true) as [(b & ->)| ->]; [|auto]. cbn [bind]. destruct b; cbn [negb]; [|right; left; eauto].
-  destruct (T (skipn 242 d) tag_TaiL true) as [(b & ->)| ->]; [|auto]. cbn [bind]. destruct b; cbn [negb]; [|right; left; eauto].
+    destruct (CI (firstn w s)) as [(v & ->)|(e & ->)]; simpl; [|right; eauto].
+    destruct (IHn (skipn w s) w) as [(v2 & ->)|(e & ->)]; simpl; [left|right]; eauto. }
+  assert (TC : forall t tag, (exists b, tagcheck c t tag = Ok b) \/ tagcheck c t tag = OOBR 5).
+  { intros. unfold tagcheck, tagscan. destruct (fx_tag c); [left; eauto|apply T]. }
+  unfold dec_node_header.
+  destruct (TC d tag_NoDe) as [(b & ->)| ->]; [|auto]. cbn [bind]. destruct b; cbn [negb]; [|right; left; eauto].
+  destruct (TC (skipn 242 d) tag_TaiL) as [(b & ->)| ->]; [|auto]. cbn [bind]. destruct b; cbn [negb]; [|right; left; eauto].
   destruct (HX 0 (W32 - 1) (sub d 68 8)) as [(v1 & ->)|(e & ->)]; cbn [bind]; [|right; left; eauto].
   destruct (HX 0 (W32 - 1) (sub d 76 8)) as [(v2 & ->)|(e & ->)]; cbn [bind]; [|right; left; eauto].
+  destruct (fx_snt c && (v1 >? v2)); [right; left; eauto|].
   destruct (DP (sub d 84 12)) as [(p1 & ->)|(e & ->)]; cbn [bind]; [|right; left; eauto].
   destruct (HX 0 12 (sub d 128 2)) as [(v3 & ->)|(e & ->)]; cbn [bind]; [|right; left; eauto].
   assert (DM : (exists v, (if fa_old a then hex_fields (sub d 130 96) 8 12 (W32 - 1)
@@ -503,7 +526,7 @@ Proof.
 Qed.
 
 (* file header: acceptance implies the six tags are exactly "AdF0".."AdF5" and the sizes are bytes *)
-Theorem file_header_sound a d h : dec_file_header a d = Ok h ->
+Theorem file_header_sound c a d h : dec_file_header c a d = Ok h ->
   sub d 32 4 = tag_AdF 0 /\ sub d 64 4 = tag_AdF 1 /\ sub d 96 4 = tag_AdF 2 /\ sub d 102 4 = tag_AdF 3 /\
   sub d 130 4 = tag_AdF 4 /\ sub d 182 4 = tag_AdF 5 /\ fa_fmt a <> 0 /\ fa_os a <> 0 /\
   dp_dec a (sub d 134 12) = Ok (fh_root h).
@@ -515,65 +538,140 @@ Proof.
   destruct (beq (sub d 102 4) (tag_AdF 3)) eqn:T3; [|discriminate].
   destruct (beq (sub d 130 4) (tag_AdF 4)) eqn:T4; [|discriminate].
   destruct (beq (sub d 182 4) (tag_AdF 5)) eqn:T5; [|discriminate]. cbn [andb negb] in H.
-  destruct (Z.eqb_spec (fa_fmt a) 0); [discriminate|]. destruct (Z.eqb_spec (fa_os a) 0); [discriminate|]. cbn [orb] in H.
+  assert (NZ : fa_fmt a <> 0 /\ fa_os a <> 0).
+  { destruct (fx_fmt c); cbn [andb negb] in H.
+    - destruct (fmt_letter (fa_fmt a)) eqn:F; [|discriminate]. destruct (os_letter (fa_os a)) eqn:O; [|discriminate].
+      apply fmt_letter_nz in F. apply os_letter_nz in O. split; [destruct (Z.eqb_spec (fa_fmt a) 0)|destruct (Z.eqb_spec (fa_os a) 0)]; congruence.
+    - destruct (Z.eqb_spec (fa_fmt a) 0); [discriminate|]. destruct (Z.eqb_spec (fa_os a) 0); [discriminate|]. auto. }
+  destruct (fx_fmt c && negb (fmt_letter (fa_fmt a) && os_letter (fa_os a))); [discriminate|].
+  destruct (negb (fx_fmt c) && ((fa_fmt a =? 0) || (fa_os a =? 0))); [discriminate|].
   apply bind_ok in H. destruct H as (sz & _ & H). apply bind_ok in H. destruct H as (r & Hr & H).
   apply bind_ok in H. destruct H as (e & _ & H). apply bind_ok in H. destruct H as (f & _ & H).
   apply bind_ok in H. destruct H as (x & _ & H). inversion H; subst. cbn.
-  repeat split; auto using beq_true.
+  destruct NZ. repeat split; auto using beq_true.
 Qed.
 
-(* ================================================================ 5. refutations by witness (AdfWalk.wit_* files) *)
-Definition on_open {P : Type} (bs : bytes) (k : fstate -> ptr -> P) (d : P) : P :=
-  match database_open bs with Ok (f, r) => k f r | _ => d end.
+(* ================================================================ 5. the code before the repairs: refutations by witness
+   (AdfWalk.wit_* files; every one is a file of corpus/C13 and is run on the implementation by checks/C13.py) *)
+Definition on_open {P : Type} (c : fixes) (bs : bytes) (k : fstate -> ptr -> P) (d : P) : P :=
+  match database_open c bs with Ok (f, r) => k f r | _ => d end.
+Notation L := legacy.
 
-(* the valid witness: opens, both children are found, the walk is clean *)
-Lemma wit_valid_ok :
-  on_open wit_valid (fun f r => check_4_child_name f r [66] = Ok (Some (0, 1130)) /\
-                                 get_node_id LINK_FUEL f r [66] = Ok (0, 1130)) False /\
+(* the valid witness: opens, both children are found, the walk is clean -- in both states of the code *)
+Lemma wit_valid_ok c : c = legacy \/ c = repaired ->
+  on_open c wit_valid (fun f r => check_4_child_name c f r [66] = Ok (Some (0, 1130)) /\
+                                   get_node_id_top c f r [66] = Ok (0, 1130)) False /\
   forallb (fun e => match e with EvG r => clean r | EvN _ r => clean r | EvFuel => false | _ => true end)
-          (walk_events (walk 10 wit_valid)) = true.
-Proof. vm_compute. repeat split; reflexivity. Qed.
+          (walk_events (walk c 10 wit_valid)) = true.
+Proof. intros [->| ->]; vm_compute; repeat split; reflexivity. Qed.
 
 (* section 6 #12: same file, header field entries_for_sub_nodes 00000008 -> 00000002 *)
 Lemma wit_oobw_is_one_field : wit_oobw = firstn 342 wit_valid ++ hexenc 8 2 ++ skipn 350 wit_valid.
 Proof. vm_compute. reflexivity. Qed.
 
 Theorem oob_write_refuted :
-  exists bs, on_open bs (fun f r => check_4_child_name f r [66] = OOBW 1 /\
-                                    get_node_id LINK_FUEL f r [66] = OOBW 1) False.
+  exists bs, on_open L bs (fun f r => check_4_child_name L f r [66] = OOBW 1 /\
+                                      get_node_id_top L f r [66] = OOBW 1) False.
 Proof. exists wit_oobw. vm_compute. split; reflexivity. Qed.
 
 Theorem oob_read_refuted :
-  exists bs, on_open bs (fun f r => check_4_child_name f r [66] = OOBR 1) False.
+  exists bs, on_open L bs (fun f r => check_4_child_name L f r [66] = OOBR 1) False.
 Proof. exists wit_oobr. vm_compute. reflexivity. Qed.
 
+Definition is_out {A} (r x : out A) : Prop :=     (* r is the argument-free outcome x *)
+  match r, x with
+  | OOBW a, OOBW b => a = b | OOBR a, OOBR b => a = b | Uninit, Uninit | Stale, Stale | Abort, Abort | UB, UB
+  | Ext, Ext | OutOfFuel, OutOfFuel => True | _, _ => False
+  end.
+
+Theorem dct_refuted :
+  exists bs, on_open L bs (fun f r => match read_node_header L f (0, 884) with
+                                      | Ok h => is_out (read_all_data L f h [73; 52] 8) (OOBW 2)
+                                      | _ => False end) False.
+Proof. exists wit_dct. vm_compute. reflexivity. Qed.
+
 Theorem link_buffer_refuted :
-  exists bs, on_open bs (fun f r => get_link_path f (0, 884) 5200 5200 = OOBW 3 /\
-                                    match chase_link f (0, 884) with OOBW 3 => True | _ => False end) False.
-Proof. exists wit_biglink. vm_compute. split; [reflexivity|exact I]. Qed.
+  exists bs, on_open L bs (fun f r => get_link_path L f (0, 884) 5200 5200 = OOBW 3 /\
+                                      is_out (chase_link L f (0, 884)) (OOBW 3)) False.
+Proof. exists wit_biglink. vm_compute. split; reflexivity. Qed.
+
+Theorem link_negative_refuted : exists bs, on_open L bs (fun f r => is_out (chase_link L f (0, 884)) (OOBW 6)) False.
+Proof. exists wit_neglink. vm_compute. reflexivity. Qed.
+
+Theorem link_index_refuted : exists bs, on_open L bs (fun f r => is_out (chase_link L f (0, 884)) (OOBW 3)) False.
+Proof. exists wit_hugelink. vm_compute. reflexivity. Qed.
+
+Theorem link_tokens_refuted : exists bs, on_open L bs (fun f r => get_link_path L f (0, 884) 5200 5200 = OOBW 4) False.
+Proof. exists wit_toklink. vm_compute. reflexivity. Qed.
+
+Theorem link_file_part_refuted :
+  exists bs, on_open L bs (fun f r => clean (get_link_path L f (0, 884) 5200 5200) = true /\
+                                      is_out (chase_link L f (0, 884)) (OOBW 8)) False.
+Proof. exists wit_longfile. vm_compute. split; reflexivity. Qed.
 
 Theorem link_recursion_refuted :
-  exists bs, on_open bs (fun f r => get_node_id LINK_FUEL f r [76] = Ok (0, 884) /\
-                                    match chase_link f (0, 884) with OutOfFuel => True | _ => False end) False.
-Proof. exists wit_linkrec. vm_compute. split; [reflexivity|exact I]. Qed.
+  exists bs, on_open L bs (fun f r => get_node_id_top L f r [76] = Ok (0, 884) /\
+                                      is_out (chase_link L f (0, 884)) OutOfFuel) False.
+Proof. exists wit_linkrec. vm_compute. split; reflexivity. Qed.
 
-Theorem abort_refuted : exists bs, database_open bs = Abort.
+Theorem abort_refuted : exists bs, database_open L bs = Abort.
 Proof. exists wit_abort. vm_compute. reflexivity. Qed.
 
-Theorem tagscan_refuted : exists bs, on_open bs (fun f r => match read_node_header f r with OOBR 5 => True | _ => False end) False.
-Proof. exists wit_tagscan. vm_compute. exact I. Qed.
+Theorem format_shift_refuted : exists bs, database_open L bs = UB.
+Proof. exists wit_fmtneg. vm_compute. reflexivity. Qed.
 
-Theorem stale_refuted : exists bs, on_open bs (fun f r => match read_node_header f r with Stale => True | _ => False end) False.
-Proof. exists wit_stale. vm_compute. exact I. Qed.
+Theorem tagscan_refuted : exists bs, on_open L bs (fun f r => is_out (read_node_header L f r) (OOBR 5)) False.
+Proof. exists wit_tagscan. vm_compute. reflexivity. Qed.
 
-(* a child pointer redirected to an ancestor: the walk runs out of fuel whatever the fuel *)
-Definition cyc_f : fstate := on_open wit_cycle (fun f _ => f) (mkfile []).
+Theorem stale_refuted : exists bs, on_open L bs (fun f r => is_out (read_node_header L f r) Stale) False.
+Proof. exists wit_stale. vm_compute. reflexivity. Qed.
+
+Definition data_of (c : fixes) (bs : bytes) (t : bytes) (cap : Z) : out (Z * bytes) :=
+  on_open c bs (fun f r => h <- read_node_header c f (0, 884) ;; read_all_data c f h t cap) (Err 0).
+
+Theorem datatype_overflow_refuted : exists bs, data_of L bs [73; 52] 4 = UB.
+Proof. exists wit_dtov. vm_compute. reflexivity. Qed.
+Theorem compound_type_refuted : exists bs, data_of L bs [73; 52] 4 = OOBW 7.
+Proof. exists wit_rtype. vm_compute. reflexivity. Qed.
+Theorem header_sizes_refuted : exists bs, data_of L bs [73; 52] 4 = OOBW 7.
+Proof. exists wit_sizes. vm_compute. reflexivity. Qed.
+Theorem zero_fill_refuted : exists bs, data_of L bs [73; 52] 4 = OOBW 7.
+Proof. exists wit_radset. vm_compute. reflexivity. Qed.
+Theorem negative_chunk_refuted : exists bs, data_of L bs [73; 52] 8 = OOBW 6.
+Proof. exists wit_radneg. vm_compute. reflexivity. Qed.
+
+(* the same witnesses are rejected with an error code by the repaired code *)
+Lemma witnesses_rejected_when_repaired :
+  on_open repaired wit_oobw (fun f r => get_node_id_top repaired f r [66]) (Err 0) = Err 24 /\
+  database_open repaired wit_oobr = Ok ({| f_bytes := wit_oobr; f_len := 1376; f_attr := wa |}, (0, 266)) /\
+  on_open repaired wit_oobr (fun f r => read_node_header repaired f r) (Err 0) = Err 24 /\
+  data_of repaired wit_dct [73; 52] 8 = Err 17 /\
+  on_open repaired wit_biglink (fun f r => chase_link repaired f (0, 884)) (Err 0) = Err 47 /\
+  on_open repaired wit_neglink (fun f r => chase_link repaired f (0, 884)) (Err 0) = Err 47 /\
+  on_open repaired wit_hugelink (fun f r => chase_link repaired f (0, 884)) (Err 0) = Err 47 /\
+  on_open repaired wit_toklink (fun f r => chase_link repaired f (0, 884)) (Err 0) = Err 31 /\
+  on_open repaired wit_longfile (fun f r => chase_link repaired f (0, 884)) (Err 0) = Err 4 /\
+  on_open repaired wit_linkrec (fun f r => chase_link repaired f (0, 884)) (Err 0) = Err 50 /\
+  database_open repaired wit_abort = Err 19 /\ database_open repaired wit_fmtneg = Err 19 /\
+  on_open repaired wit_tagscan (fun f r => read_node_header repaired f r) (Err 0) = Err 17 /\
+  on_open repaired wit_stale (fun f r => read_node_header repaired f r) (Err 0) = Err 15 /\
+  data_of repaired wit_dtov [73; 52] 4 = Err 31 /\ data_of repaired wit_rtype [73; 52] 4 = Err 31 /\
+  data_of repaired wit_sizes [73; 52] 4 = Err 41 /\ data_of repaired wit_radset [73; 52] 4 = Ok (55, []) /\
+  data_of repaired wit_radneg [73; 52] 8 = Err 17.
+Proof. vm_compute. repeat split; reflexivity. Qed.
+
+(* a child pointer redirected to an ancestor: the walk runs out of fuel whatever the fuel -- in both states
+   (it is the client that walks; the ADF library has no tree walk of its own) *)
+Section Cycle.
+Variable c : fixes.
+Hypothesis Hc : c = legacy \/ c = repaired.
+Definition cyc_f : fstate := on_open c wit_cycle (fun f _ => f) (mkfile []).
 Definition cyc_root : ptr := (0, 266).
 
-Lemma cyc_gni : get_node_id LINK_FUEL cyc_f cyc_root [65] = Ok cyc_root.
-Proof. vm_compute. reflexivity. Qed.
-Lemma cyc_visit d : snd (visit cyc_f cyc_root d) = Some [(cyc_root, [65], d + 1); (cyc_root, [66], d + 1)].
-Proof. vm_compute. reflexivity. Qed.
+Lemma cyc_gni : get_node_id_top c cyc_f cyc_root [65] = Ok cyc_root.
+Proof. unfold cyc_f. destruct Hc as [->| ->]; vm_compute; reflexivity. Qed.
+Lemma cyc_visit d : snd (visit c cyc_f cyc_root d) = Some [(cyc_root, [65], d + 1); (cyc_root, [66], d + 1)].
+Proof. unfold cyc_f. destruct Hc as [->| ->]; vm_compute; reflexivity. Qed.
 
 Lemma last_cons_app {A} (a : A) l1 l2 d : l2 <> [] -> last (a :: l1 ++ l2) d = last l2 d.
 Proof.
@@ -585,10 +683,10 @@ Qed.
 Lemma last_nonnil {A} (l : list A) d x : last l d = x -> x <> d -> l <> [].
 Proof. intros H Hx Hl. subst l. simpl in H. congruence. Qed.
 
-Lemma cyc_loop : forall n d rest, last (walk_loop n cyc_f ((cyc_root, [65], d) :: rest)) (EvD 0) = EvFuel.
+Lemma cyc_loop : forall n d rest, last (walk_loop c n cyc_f ((cyc_root, [65], d) :: rest)) (EvD 0) = EvFuel.
 Proof.
   induction n as [|n IH]; intros d rest; [reflexivity|].
-  cbn [walk_loop]. rewrite cyc_gni. destruct (visit cyc_f cyc_root d) as [evs k] eqn:E.
+  cbn [walk_loop]. rewrite cyc_gni. destruct (visit c cyc_f cyc_root d) as [evs k] eqn:E.
   pose proof (cyc_visit d) as Hk. rewrite E in Hk. simpl in Hk. subst k.
   change ([(cyc_root, [65], d + 1); (cyc_root, [66], d + 1)] ++ rest)
     with ((cyc_root, [65], d + 1) :: (cyc_root, [66], d + 1) :: rest).
@@ -596,171 +694,294 @@ Proof.
   rewrite last_cons_app; [exact HW|]. eapply last_nonnil; [exact HW|discriminate].
 Qed.
 
-Theorem cycle_refuted : exists bs, forall n, last (walk_events (walk n bs)) (EvD 0) = EvFuel.
+Lemma cycle_any_fuel : forall n, last (walk_events (walk c n wit_cycle)) (EvD 0) = EvFuel.
 Proof.
-  exists wit_cycle. intros n. unfold walk.
-  assert (Ho : database_open wit_cycle = Ok (cyc_f, cyc_root)) by (vm_compute; reflexivity).
-  rewrite Ho. destruct (visit cyc_f cyc_root 0) as [evs k] eqn:E.
+  intros n. unfold walk.
+  assert (Ho : database_open c wit_cycle = Ok (cyc_f, cyc_root))
+    by (unfold cyc_f; destruct Hc as [->| ->]; vm_compute; reflexivity).
+  rewrite Ho. destruct (visit c cyc_f cyc_root 0) as [evs k] eqn:E.
   pose proof (cyc_visit 0) as Hk. rewrite E in Hk. simpl in Hk. subst k. cbn [walk_events].
   pose proof (cyc_loop n 1 [(cyc_root, [66], 1)]) as HL.
   destruct evs as [|e evs]; [exact HL|].
   change ((e :: evs) ++ ?x) with (e :: evs ++ x).
   rewrite last_cons_app; [exact HL|]. eapply last_nonnil; [exact HL|discriminate].
 Qed.
+End Cycle.
 
-(* ================================================================ 6. the proposed repair closes site 1 for EVERY file *)
-(* [safe1 r]: r is not a memory error, except possibly the tag-scan over-read (site 5), which the repair of
-   ADFI_read_sub_node_table does not address *)
-Definition safe1 {A} (r : out A) : Prop :=
-  match r with OOBW _ => False | OOBR s => s = 5 | Uninit => False | _ => True end.
+Theorem cycle_refuted : forall c, c = legacy \/ c = repaired ->
+  exists bs, forall n, last (walk_events (walk c n bs)) (EvD 0) = EvFuel.
+Proof. intros c Hc. exists wit_cycle. apply cycle_any_fuel. exact Hc. Qed.
 
-Lemma bind_safe1 {A B} (x : out A) (f : A -> out B) : safe1 x -> (forall a, safe1 (f a)) -> safe1 (bind x f).
-Proof. destruct x; simpl; auto; try contradiction. Qed.
-Lemma recast_safe1 {A B} (r : out A) : safe1 r -> safe1 (@recast A B r).
+(* ================================================================ 6. the repaired code: no forbidden outcome, on EVERY byte string *)
+Notation R := repaired.
+
+(* [safe r]: r is none of the outcomes the property forbids.  Ok, Err (clean error return), Ext (the operation leaves the
+   modelled fragment: another file, number-format translation) and OutOfFuel (excluded separately, section 7) remain. *)
+Definition safe {A} (r : out A) : Prop :=
+  match r with OOBW _ | OOBR _ | Uninit | Stale | Abort | UB => False | _ => True end.
+
+Lemma bind_safe {A B} (x : out A) (f : A -> out B) : safe x -> (forall a, x = Ok a -> safe (f a)) -> safe (bind x f).
+Proof. destruct x; simpl; auto. Qed.
+Lemma recast_safe {A B} (r : out A) : safe r -> safe (@recast A B r).
 Proof. destruct r; simpl; auto. Qed.
+Lemma safe_ok {A} (a : A) : safe (Ok a). Proof. exact I. Qed.
+Lemma safe_err {A} e : safe (@Err A e). Proof. exact I. Qed.
+Lemma safe_ext {A} : safe (@Ext A). Proof. exact I. Qed.
+#[local] Hint Resolve safe_ok safe_err safe_ext : safe.
 
-Lemma hex2uint_safe1 mn mx s : safe1 (hex2uint mn mx s).
+(* invariant rule for the early-exit loops *)
+Lemma loopN_inv {S A} (step : S -> S + A) (Inv : S -> Prop) (Post : A -> Prop) :
+  (forall s, Inv s -> match step s with inl s' => Inv s' | inr r => Post r end) ->
+  forall n s, Inv s -> match loopN step n s with inl s' => Inv s' | inr r => Post r end.
+Proof.
+  intros H. induction n as [|n IH]; intros s Hs; cbn [loopN]; [exact Hs|].
+  specialize (H s Hs). destruct (step s) as [s'|r]; [apply IH; exact H|exact H].
+Qed.
+
+Lemma hex2uint_safe mn mx s : safe (hex2uint mn mx s).
 Proof. destruct (hex2uint_total mn mx s) as [(v & ->)|(e & ->)]; exact I. Qed.
-Lemma adjust_safe1 p : safe1 (adjust p).
+Lemma adjust_safe p : safe (adjust p).
 Proof. unfold adjust. destruct p as [b o]. destruct (_ <? _); [exact I|]. destruct (_ <? _); exact I. Qed.
-Lemma conv_int_safe1 fmt s : safe1 (conv_int fmt s).
+Lemma conv_int_safe fmt s : fmt < 128 -> safe (conv_int fmt s).
 Proof.
-  unfold conv_int, conv_mode. destruct (fmt =? 78); [exact I|]. destruct (fmt =? 76); [exact I|].
-  destruct ((fmt =? 66) || (fmt =? 67)); exact I.
+  intros H. unfold conv_int, conv_mode. destruct (fmt =? 78); [exact I|]. destruct (fmt =? 76); [exact I|].
+  destruct (Z.geb_spec fmt 128); [lia|]. destruct ((fmt =? 66) || (fmt =? 67)); exact I.
 Qed.
-Lemma dp_dec_safe1 a s : safe1 (dp_dec a s).
+Lemma dp_dec_safe a s : fa_fmt a < 128 -> safe (dp_dec a s).
 Proof.
-  unfold dp_dec, dp_from_hex. destruct (fa_old a).
-  - apply bind_safe1; [apply hex2uint_safe1|intros]. apply bind_safe1; [apply hex2uint_safe1|intros; exact I].
-  - apply bind_safe1; [apply conv_int_safe1|intros]. apply bind_safe1; [apply conv_int_safe1|intros; exact I].
+  intros H. unfold dp_dec, dp_from_hex. destruct (fa_old a).
+  - apply bind_safe; [apply hex2uint_safe|intros]. apply bind_safe; [apply hex2uint_safe|intros; exact I].
+  - apply bind_safe; [apply conv_int_safe; exact H|intros]. apply bind_safe; [apply conv_int_safe; exact H|intros; exact I].
 Qed.
-Lemma read_file_safe1 f p len : 0 <= len -> safe1 (read_file f p len).
+Lemma hex_fields_safe n : forall s w mx, safe (hex_fields s w n mx).
 Proof.
-  intros H. unfold read_file. destruct p as [b o].
-  destruct (_ >? BLK).
-  - destruct (_ >=? _); [exact I|]. destruct (Z.ltb_spec len 0); [exact I|]. destruct (_ =? _); [exact I|].
-    destruct (_ <=? _); exact I.
-  - destruct (_ >=? _); [exact I|]. destruct (_ <=? 0); [exact I|]. destruct (Z.ltb_spec len 0); [lia|].
-    destruct (_ =? _); [exact I|]. destruct (_ <=? _); exact I.
+  induction n; intros; simpl; [exact I|]. apply bind_safe; [apply hex2uint_safe|intros].
+  apply bind_safe; [apply IHn|intros; exact I].
 Qed.
-Lemma rdpfd_safe1 f p : safe1 (rdpfd f p).
+Lemma int_fields_safe fmt n : fmt < 128 -> forall s w, safe (int_fields fmt s w n).
 Proof.
-  unfold rdpfd. destruct (_ >? _); [exact I|]. apply bind_safe1; [apply read_file_safe1; lia|intros; apply dp_dec_safe1].
+  intros H. induction n; intros; simpl; [exact I|]. apply bind_safe; [apply conv_int_safe; exact H|intros].
+  apply bind_safe; [apply IHn|intros; exact I].
 Qed.
-Lemma dec_node_header_safe1 a d : safe1 (dec_node_header a d).
-Proof. destruct (node_header_total a d) as [(h & ->)|[(e & ->)| ->]]; simpl; auto. Qed.
-Lemma read_node_header_safe1 f p : safe1 (read_node_header f p).
-Proof. unfold read_node_header. apply bind_safe1; [apply read_file_safe1; lia|intros; apply dec_node_header_safe1]. Qed.
 
-Lemma loopN_safe1 {S A} (step : S -> S + out A) :
-  (forall s r, step s = inr r -> safe1 r) -> forall n s, safe1 (of_loop (loopN step n s)).
+(* repair 13: ADFI_read_file never serves stale bytes and never copies a negative length *)
+Lemma read_file_safe f p len : safe (read_file R f p len).
 Proof.
-  intros H. induction n as [|n IH]; intros s; simpl; [exact I|].
+  unfold read_file. destruct p as [b o]. cbn [fx_short repaired andb].
+  destruct (_ >? BLK).
+  - destruct (_ >=? _); [exact I|]. destruct (len <? 0); [exact I|]. destruct (_ =? _); [exact I|].
+    destruct (_ <=? _); exact I.
+  - destruct (_ >=? _); [exact I|]. destruct (_ <=? 0); [exact I|].
+    destruct (Z.ltb_spec len 0) as [Hl|Hl]; cbn [orb]; [exact I|].
+    destruct (Z.gtb_spec (o + len) (Z.min BLK (f_len f - (b * BLK) mod W64))) as [Hg|Hg]; [exact I|].
+    destruct (_ =? _); [exact I|]. destruct (Z.leb_spec (o + len) (Z.min BLK (f_len f - (b * BLK) mod W64))); [exact I|lia].
+Qed.
+
+(* repair 06: the tag comparison looks at four bytes *)
+Lemma tagcheck_safe t tag : safe (tagcheck R t tag).
+Proof. exact I. Qed.
+
+Section SafeFile.
+Variable f : fstate.
+Hypothesis Hf : fa_fmt (f_attr f) < 128.       (* established by ADF_Database_Open, repair 05 *)
+
+Lemma rdpfd_safe p : safe (rdpfd R f p).
+Proof.
+  unfold rdpfd. destruct (_ >? _); [exact I|]. apply bind_safe; [apply read_file_safe|intros; apply dp_dec_safe; exact Hf].
+Qed.
+
+Lemma dec_node_header_safe d : safe (dec_node_header R (f_attr f) d).
+Proof.
+  unfold dec_node_header. apply bind_safe; [apply tagcheck_safe|intros s _]. destruct (negb s); [exact I|].
+  apply bind_safe; [apply tagcheck_safe|intros e _]. destruct (negb e); [exact I|].
+  apply bind_safe; [apply hex2uint_safe|intros nsub _]. apply bind_safe; [apply hex2uint_safe|intros ent _].
+  destruct (_ && _); [exact I|].
+  apply bind_safe; [apply dp_dec_safe; exact Hf|intros snt _]. apply bind_safe; [apply hex2uint_safe|intros nd _].
+  apply bind_safe; [destruct (fa_old (f_attr f)); [apply hex_fields_safe|apply int_fields_safe; exact Hf]|intros dims _].
+  apply bind_safe; [apply hex2uint_safe|intros nch _]. apply bind_safe; [apply dp_dec_safe; exact Hf|intros dc _]. exact I.
+Qed.
+
+Lemma read_node_header_safe p : safe (read_node_header R f p).
+Proof. unfold read_node_header. apply bind_safe; [apply read_file_safe|intros; apply dec_node_header_safe]. Qed.
+
+(* what an accepted node header guarantees (repair 01 adds the first item) *)
+Lemma read_node_header_post p h : read_node_header R f p = Ok h ->
+  nh_nsub h <= nh_entries h /\ 0 <= nh_nsub h < W32 /\ 0 <= nh_entries h < W32 /\ 0 <= nh_ndims h <= 12 /\ 0 <= nh_nchunks h <= 65535.
+Proof.
+  unfold read_node_header. intros H. apply bind_ok in H. destruct H as (d & _ & H).
+  apply node_header_sound in H. destruct H as (_ & _ & Hs & H1 & H2 & H3 & H4 & _).
+  specialize (Hs eq_refl). repeat split; lia.
+Qed.
+
+(* repair 05: no assert *)
+Lemma dec_file_header_safe a d : fa_fmt a < 128 -> safe (dec_file_header R a d).
+Proof.
+  intros Ha. unfold dec_file_header. destruct (negb _); [exact I|]. cbn [fx_fmt repaired andb negb].
+  destruct (negb (fmt_letter (fa_fmt a) && os_letter (fa_os a))); [exact I|].
+  apply bind_safe; [apply hex_fields_safe|intros]. repeat (apply bind_safe; [apply dp_dec_safe; exact Ha|intros]). exact I.
+Qed.
+Lemma read_file_header_safe : safe (read_file_header R f).
+Proof. unfold read_file_header. apply bind_safe; [apply read_file_safe|intros; apply dec_file_header_safe; exact Hf]. Qed.
+
+Lemma of_loop_safe {S A} (step : S -> S + out A) n s :
+  (forall s r, step s = inr r -> safe r) -> safe (of_loop (loopN step n s)).
+Proof.
+  intros H. revert s. induction n as [|n IH]; intros s; simpl; [exact I|].
   destruct (step s) as [s'|r] eqn:E; [apply IH|]. simpl. eapply H; eauto.
 Qed.
 
-Lemma zstep_safe1 f s r : zstep f s = inr r -> safe1 r.
+Lemma zstep_safe s r : zstep R f s = inr r -> safe r.
 Proof.
   unfold zstep. destruct s as [count cur].
-  pose proof (adjust_safe1 (fst cur, snd cur + 1)) as HA.
+  pose proof (adjust_safe (fst cur, snd cur + 1)) as HA.
   destruct (adjust (fst cur, snd cur + 1)) as [cur'| | | | | | | | |] eqn:EA; intros H; try (inversion H; subst; simpl in *; auto; fail).
-  pose proof (read_file_safe1 f cur' 1 ltac:(lia)) as HR.
-  destruct (read_file f cur' 1) as [c| e | | | | | | | |] eqn:ER; try (inversion H; subst; simpl in *; auto; fail).
+  pose proof (read_file_safe f cur' 1) as HR.
+  destruct (read_file R f cur' 1) as [c| e | | | | | | | |] eqn:ER; try (inversion H; subst; simpl in *; auto; fail).
   - destruct (_ =? 122); inversion H; subst; exact I.
   - destruct (_ || _); inversion H; subst; exact I.
 Qed.
 
-Lemma read_chunk_length_safe1 f p : safe1 (read_chunk_length f p).
+Lemma read_chunk_length_safe p : safe (read_chunk_length R f p).
 Proof.
   unfold read_chunk_length. destruct (_ && _); [exact I|]. destruct (_ && _); [exact I|].
-  apply bind_safe1; [apply read_file_safe1; lia|intros c0]. destruct (_ =? 122).
-  - apply bind_safe1; [apply loopN_safe1; apply zstep_safe1|intros]. apply bind_safe1; [apply adjust_safe1|intros; exact I].
-  - apply bind_safe1; [apply read_file_safe1; lia|intros info]. destruct (tag_eq_ci _ _).
-    + apply bind_safe1; [apply adjust_safe1|intros; exact I].
-    + apply bind_safe1; [apply dp_dec_safe1|intros; exact I].
+  apply bind_safe; [apply read_file_safe|intros c0 _]. destruct (_ =? 122).
+  - apply bind_safe; [apply of_loop_safe; apply zstep_safe|intros]. apply bind_safe; [apply adjust_safe|intros; exact I].
+  - apply bind_safe; [apply read_file_safe|intros info _]. destruct (tag_eq_ci _ _).
+    + apply bind_safe; [apply adjust_safe|intros; exact I].
+    + apply bind_safe; [apply dp_dec_safe; exact Hf|intros; exact I].
 Qed.
 
-Lemma snt_step_safe1 f n cap : n <= cap -> forall s r, snt_step f n cap s = inr r -> safe1 r.
+(* ---- repair 01: the sub-node table fits the caller's array and fills it *)
+Lemma snt_loop_post n cap : forall fuel st tbl,
+  (let '(i, cur, acc) := st in i = Z.of_nat (length acc) /\ 0 <= i <= n) -> n <= cap ->
+  loopN (snt_step R f n cap) fuel st = inr (Ok tbl) -> Z.of_nat (length tbl) = n.
+Proof.
+  induction fuel as [|fuel IH]; intros [[i cur] acc] tbl (Hi & Hr) Hn H; cbn [loopN] in H; [discriminate|].
+  unfold snt_step in H at 1. destruct (Z.geb_spec i n) as [G|G].
+  - inversion H; subst. rewrite rev_length. lia.
+  - match type of H with match (match ?X with _ => _ end) with _ => _ end = _ => destruct X as [[[i' cur'] acc']| | | | | | | | |] eqn:E end;
+      try discriminate.
+    apply (IH (i', cur', acc') tbl); [|exact Hn|exact H].
+    apply bind_ok in E. destruct E as (cur1 & _ & E). apply bind_ok in E. destruct E as (nm & _ & E).
+    destruct (Z.geb_spec i cap); [discriminate|].
+    apply bind_ok in E. destruct E as (cur2 & _ & E). apply bind_ok in E. destruct E as (cp & _ & E).
+    inversion E; subst. cbn [length]. rewrite Nat2Z.inj_succ. lia.
+Qed.
+
+Lemma snt_step_safe n cap : n <= cap -> forall s r, snt_step R f n cap s = inr r -> safe r.
 Proof.
   intros Hn [[i cur] acc] r. unfold snt_step. destruct (Z.geb_spec i n) as [Hi|Hi]; [intros H; inversion H; exact I|].
-  match goal with |- match ?X with _ => _ end = _ -> _ => assert (HS : safe1 X); [|destruct X; intros H; inversion H; subst; simpl in *; auto] end.
-  apply bind_safe1; [apply adjust_safe1|intros cur1]. apply bind_safe1; [apply read_file_safe1; lia|intros nm].
-  destruct (Z.geb_spec i cap); [lia|]. apply bind_safe1; [apply adjust_safe1|intros cur2].
-  apply bind_safe1; [apply rdpfd_safe1|intros; exact I].
+  match goal with |- match ?X with _ => _ end = _ -> _ => assert (HS : safe X); [|destruct X; intros H; inversion H; subst; simpl in *; auto] end.
+  apply bind_safe; [apply adjust_safe|intros cur1 _]. apply bind_safe; [apply read_file_safe|intros nm _].
+  destruct (Z.geb_spec i cap); [lia|]. apply bind_safe; [apply adjust_safe|intros cur2 _].
+  apply bind_safe; [apply rdpfd_safe|intros; exact I].
 Qed.
 
-Lemma read_snt_fixed_safe1 f p cap : safe1 (read_sub_node_table_fixed f p cap).
+Lemma read_snt_safe p cap : safe (read_sub_node_table R f p cap).
 Proof.
-  unfold read_sub_node_table_fixed. apply bind_safe1; [apply read_chunk_length_safe1|intros [tag e]].
-  destruct (Z.gtb_spec (snt_count p e) cap); [exact I|].
-  apply bind_safe1; [apply adjust_safe1|intros cur]. apply loopN_safe1. apply snt_step_safe1. lia.
+  unfold read_sub_node_table. apply bind_safe; [apply read_chunk_length_safe|intros [tag e] _].
+  cbn [fx_snt repaired andb]. destruct (Z.eqb_spec (snt_count p e) cap) as [E|E]; cbn [negb]; [|exact I].
+  apply bind_safe; [apply adjust_safe|intros cur _]. apply of_loop_safe. apply snt_step_safe. lia.
 Qed.
 
-Lemma c4c_loop_safe1 tbl cap snt name : forall n i, 0 <= i -> i + Z.of_nat n <= Z.of_nat (length tbl) ->
-  safe1 (c4c_loop true tbl cap snt name n i).
+Lemma snt_count_nonneg p e : 0 <= snt_count p e.
+Proof. unfold snt_count. apply Z.div_pos; [apply Z.mod_pos_bound; reflexivity|reflexivity]. Qed.
+
+Lemma read_snt_length p cap tbl : read_sub_node_table R f p cap = Ok tbl -> Z.of_nat (length tbl) = cap.
+Proof.
+  unfold read_sub_node_table. intros H. apply bind_ok in H. destruct H as ([tag e] & _ & H).
+  cbn [fx_snt repaired andb] in H. destruct (Z.eqb_spec (snt_count p e) cap) as [E|E]; cbn [negb] in H; [|discriminate].
+  apply bind_ok in H. destruct H as (cur & _ & H).
+  destruct (loopN (snt_step R f (snt_count p e) cap) (Z.to_nat (f_len f / 44) + 2) (0, cur, [])) as [s|r] eqn:EL; [discriminate|].
+  cbn [of_loop] in H. subst r. rewrite <- E.
+  eapply snt_loop_post; [| |exact EL]; [cbn; pose proof (snt_count_nonneg p e); lia|lia].
+Qed.
+
+Lemma c4c_loop_safe tbl cap snt name : forall n i, 0 <= i -> i + Z.of_nat n <= Z.of_nat (length tbl) ->
+  safe (c4c_loop tbl cap snt name n i).
 Proof.
   induction n as [|n IH]; intros i Hi Hb; [exact I|]. cbn [c4c_loop].
   unfold tbl_get. destruct (nth_error tbl (Z.to_nat i)) as [e|] eqn:E.
   - cbn [bind]. destruct (names_match _ _).
-    + apply bind_safe1; [apply adjust_safe1|intros; exact I].
+    + apply bind_safe; [apply adjust_safe|intros; exact I].
     + apply IH; lia.
   - apply nth_error_None in E. lia.
 Qed.
 
-(* with the repair, ADFI_check_4_child_name performs no access outside sub_node_table[] and reads no cell it
-   did not fill -- for every file, every parent pointer, every name *)
-Theorem check_4_child_name_fixed_safe f parent name : safe1 (check_4_child_name_gen true f parent name).
+Lemma toS32_le x : 0 <= x < W32 -> toS32 x <= x.
 Proof.
-  unfold check_4_child_name_gen. apply bind_safe1; [apply read_node_header_safe1|intros h].
-  destruct (_ =? 0); [exact I|].
-  apply bind_safe1; [destruct (_ >? 0); [apply read_snt_fixed_safe1|exact I]|intros tbl].
-  apply c4c_loop_safe1; lia.
+  intros H. unfold toS32. rewrite Z.mod_small by exact H. destruct (_ <? _); unfold W32 in *; lia.
 Qed.
 
-(* ================================================================ 7. termination of the open-time operations *)
-Definition nofuel {A} (r : out A) : Prop := match r with OutOfFuel => False | _ => True end.
-Lemma bind_nofuel {A B} (x : out A) (f : A -> out B) : nofuel x -> (forall a, nofuel (f a)) -> nofuel (bind x f).
-Proof. destruct x; simpl; auto. Qed.
-Lemma hex2uint_nofuel mn mx s : nofuel (hex2uint mn mx s).
-Proof. destruct (hex2uint_total mn mx s) as [(v & ->)|(e & ->)]; exact I. Qed.
-Lemma conv_int_nofuel fmt s : nofuel (conv_int fmt s).
+(* ADFI_check_4_child_name: every access stays inside sub_node_table[] and reads a cell that was filled *)
+Lemma check_4_child_name_safe parent name : safe (check_4_child_name R f parent name).
 Proof.
-  unfold conv_int, conv_mode. destruct (fmt =? 78); [exact I|]. destruct (fmt =? 76); [exact I|].
-  destruct ((fmt =? 66) || (fmt =? 67)); exact I.
-Qed.
-Lemma dp_dec_nofuel a s : nofuel (dp_dec a s).
-Proof.
-  unfold dp_dec, dp_from_hex. destruct (fa_old a).
-  - apply bind_nofuel; [apply hex2uint_nofuel|intros]. apply bind_nofuel; [apply hex2uint_nofuel|intros; exact I].
-  - apply bind_nofuel; [apply conv_int_nofuel|intros]. apply bind_nofuel; [apply conv_int_nofuel|intros; exact I].
-Qed.
-Lemma read_file_nofuel f p len : nofuel (read_file f p len).
-Proof.
-  unfold read_file. destruct p as [b o]. destruct (_ >? BLK).
-  - destruct (_ >=? _); [exact I|]. destruct (_ <? 0); [exact I|]. destruct (_ =? _); [exact I|]. destruct (_ <=? _); exact I.
-  - destruct (_ >=? _); [exact I|]. destruct (_ <=? 0); [exact I|]. destruct (_ <? 0); [exact I|].
-    destruct (_ =? _); [exact I|]. destruct (_ <=? _); exact I.
-Qed.
-Lemma hex_fields_nofuel n : forall s w mx, nofuel (hex_fields s w n mx).
-Proof.
-  induction n; intros; simpl; [exact I|]. apply bind_nofuel; [apply hex2uint_nofuel|intros].
-  apply bind_nofuel; [apply IHn|intros; exact I].
-Qed.
-Lemma dec_file_header_nofuel a d : nofuel (dec_file_header a d).
-Proof.
-  unfold dec_file_header. destruct (negb _); [exact I|]. destruct (_ || _); [exact I|].
-  apply bind_nofuel; [apply hex_fields_nofuel|intros]. repeat (apply bind_nofuel; [apply dp_dec_nofuel|intros]). exact I.
+  unfold check_4_child_name. apply bind_safe; [apply read_node_header_safe|intros h Hh].
+  apply read_node_header_post in Hh. destruct Hh as (Hle & Hn & He & _).
+  destruct (Z.eqb_spec (nh_nsub h) 0); [exact I|].
+  destruct (Z.gtb_spec (nh_entries h) 0) as [G|G]; [|lia].
+  apply bind_safe; [apply read_snt_safe|intros tbl Ht]. apply read_snt_length in Ht.
+  apply c4c_loop_safe; [lia|]. pose proof (toS32_le _ Hn). lia.
 Qed.
 
-(* cgio_check_file (ADF branch) is a pure function of the first 32 bytes; ADF_Database_Open performs a fixed
-   number of reads and decodes and no loop driven by file content: it returns Ok or Err (or one of the
-   distinguished outcomes Stale / Abort) on EVERY byte string, never OutOfFuel *)
-Theorem database_open_terminates bs : nofuel (database_open bs).
+(* ---- repair 07: data-type sizes *)
+Lemma dt_digits_safe : forall s acc, safe (dt_digits R s acc).
 Proof.
-  unfold database_open, read_file_header.
-  apply bind_nofuel; [apply bind_nofuel; [apply read_file_nofuel|intros; apply dec_file_header_nofuel]|intros h].
-  apply bind_nofuel; [destruct (_ =? 66); [exact I|destruct (_ =? 65); exact I]|intros old].
-  destruct (_ =? 62); [exact I|]. apply bind_nofuel; [apply hex2uint_nofuel|intros minor].
-  destruct (_ >? 2); [exact I|]. apply bind_nofuel; [unfold id_of_ptr; destruct (_ >=? _); exact I|intros root].
-  destruct (_ =? 78); [destruct (beq _ _); exact I|exact I].
+  induction s as [|c t IH]; intros acc; cbn [dt_digits]; [exact I|].
+  destruct (Z.leb_spec 48 c); destruct (Z.leb_spec c 57); cbn [andb]; try exact I. cbn [fx_dtov repaired andb].
+  destruct (Z.gtb_spec acc 214748363); [exact I|].
+  destruct (Z.gtb_spec (acc * 10 + (c - 48)) INTMAX) as [G|G]; [unfold INTMAX in G; lia|apply IH].
+Qed.
+
+Lemma dt_digits_len : forall s acc n r, dt_digits R s acc = Ok (n, r) -> (length r <= length s)%nat /\ 0 <= acc -> (length r <= length s)%nat.
+Proof. intros. tauto. Qed.
+
+Lemma dt_digits_suffix : forall s acc n r, dt_digits R s acc = Ok (n, r) -> (length r <= length s)%nat.
+Proof.
+  induction s as [|c t IH]; intros acc n r H; cbn [dt_digits] in H; [inversion H; subst; simpl; lia|].
+  destruct (_ && _).
+  - destruct (_ && _); [discriminate|]. destruct (_ >? INTMAX); [discriminate|]. apply IH in H. simpl. lia.
+  - inversion H; subst. simpl. lia.
+Qed.
+
+Lemma add_bytes_safe t s c : safe (add_bytes R t s c).
+Proof. unfold add_bytes. cbn [fx_dtov repaired]. destruct (_ >? _); exact I. Qed.
+
+(* the token array: a token that stays in the array takes at least four characters of the (at most 32) of the type,
+   except the last one *)
+Definition tok_room (s : bytes) (ntok : Z) : Prop :=
+  match s with [] => ntok <= 8 | _ => 4 * ntok + Z.of_nat (length s) <= 32 end.
+
+Lemma dt_parse_safe12 sz : forall fuel s pos0 ntok fb mb teq, 0 <= ntok -> tok_room s ntok ->
+  safe (dt_parse R fuel sz 12 s pos0 ntok fb mb teq).
+Proof.
+  induction fuel as [|fu IH]; intros s pos0 ntok fb mb teq H0 Hr; cbn [dt_parse]; [exact I|].
+  destruct s as [|c1 r1].
+  - cbn [tok_room] in Hr. destruct (Z.geb_spec ntok 12); [lia|exact I].
+  - assert (Hn : ntok <= 7) by (cbn [tok_room length] in Hr; lia).
+    destruct (_ && _).
+    + destruct (Z.geb_spec ntok 12); [lia|]. destruct (_ && _); exact I.
+    + destruct (dt_sizes sz c1 (nth 0 r1 0)) as [[sf sm]|]; [|exact I].
+      destruct (Z.geb_spec ntok 12); [lia|].
+      destruct r1 as [|c2 r2]; cbn [tl].
+      * apply bind_safe; [apply add_bytes_safe|intros]. apply bind_safe; [apply add_bytes_safe|intros].
+        apply IH; [lia|cbn; lia].
+      * destruct r2 as [|c3 r3]; cbn [tl].
+        -- apply bind_safe; [apply add_bytes_safe|intros]. apply bind_safe; [apply add_bytes_safe|intros].
+           apply IH; [lia|cbn; lia].
+        -- destruct (Z.eqb_spec c3 91) as [E91|E91]; [subst c3|].
+           ++ apply bind_safe; [apply dt_digits_safe|intros [n r4] Hd]. apply dt_digits_suffix in Hd.
+              destruct r4 as [|c4 r5]; [exact I|]. destruct (Z.eqb_spec c4 93) as [E93|E93]; [subst c4|].
+              ** apply bind_safe; [apply add_bytes_safe|intros]. apply bind_safe; [apply add_bytes_safe|intros].
+                 cbn [tok_room length] in Hr. cbn [length] in Hd.
+                 apply IH; [lia|].
+                 destruct r5 as [|c5 r6]; [cbn; lia|].
+                 destruct (Z.eqb_spec c5 44); [subst c5|].
+                 --- destruct r6; cbn [tok_room length] in *; lia.
+                 --- cbn [tok_room length] in *. destruct c5; try lia; repeat (destruct p; try lia).
+              ** destruct c4; try exact I; repeat (destruct p; try exact I). contradiction.
+           ++ destruct (Z.eqb_spec c3 44) as [E44|E44]; [subst c3|].
+              ** apply bind_safe; [apply add_bytes_safe|intros]. apply bind_safe; [apply add_bytes_safe|intros].
+                 cbn [tok_room length] in Hr. apply IH; [lia|]. destruct r3; cbn [tok_room length] in *; lia.
+              ** destruct c3; try exact I; repeat (destruct p; try exact I); contradiction.
 Qed.
